@@ -70,7 +70,7 @@ UNIVERSES = {
              StepSets='{1, 2}', Periodics='{FALSE, TRUE}'),
         dict(MaxS=2, PatSets='PatsB', NReals='{0, 2}', NGhosts='{0, 1}',
              StepSets='{2}', Periodics='{TRUE}'),
-        dict(MaxS=2, PatSets='PatsD', NReals='{0, 2}', NGhosts='{0, 1}',
+        dict(MaxS=2, PatSets='PatsD', NReals='{0, 2}', NGhosts='{1}',
              StepSets='{1, 2}', Periodics='{FALSE, TRUE}'),
     ],
 }
